@@ -2161,4 +2161,273 @@ theorem mergeMax_tie_rule (nC : Nat) (files : List Buffer) (hne : files ≠ [])
       rw [hget fq (List.mem_of_getElem? hfq)] at hrow'
       simpa using hrow'
 
+
+/-! ### integer width of the accumulators -/
+
+/-- every integer entry of a row is below `2^bits` -/
+def FitsRow (bits : Nat) (r : Row) : Prop :=
+  r.n < 2 ^ bits ∧ ∀ s ∈ r.genes, s.gt0 < 2 ^ bits ∧ s.gt1 < 2 ^ bits ∧ s.ge1 < 2 ^ bits
+
+theorem fitsBits_iff (bits : Nat) (buf : Buffer) :
+    fitsBits bits buf = true ↔ ∀ r ∈ buf, FitsRow bits r := by
+  simp only [fitsBits, List.all_eq_true, Bool.and_eq_true, decide_eq_true_eq, FitsRow]
+  constructor
+  · intro h r hr
+    exact ⟨(h r hr).1, fun s hs => by have := (h r hr).2 s hs; tauto⟩
+  · intro h r hr
+    exact ⟨(h r hr).1, fun s hs => by have := (h r hr).2 s hs; tauto⟩
+
+theorem Row.wrap_of_fits (bits : Nat) (r : Row) (h : FitsRow bits r) : r.wrap bits = r := by
+  obtain ⟨h1, h2⟩ := h
+  apply Row.ext'
+  · simp [Row.wrap, wrapNat, Nat.mod_eq_of_lt h1]
+  · simp only [Row.wrap]
+    conv => rhs; rw [← List.map_id r.genes]
+    apply List.map_congr_left
+    intro s hs
+    obtain ⟨a, b, c⟩ := h2 s hs
+    apply GStat.ext' <;> simp [GStat.wrap, wrapNat, Nat.mod_eq_of_lt, a, b, c]
+
+theorem vadd_mem_left : ∀ (x y : List GStat) (s : GStat), s ∈ x →
+    ∃ t ∈ vadd x y, s.gt0 ≤ t.gt0 ∧ s.gt1 ≤ t.gt1 ∧ s.ge1 ≤ t.ge1 := by
+  intro x
+  induction x with
+  | nil => intro y s h; simp at h
+  | cons a x ih =>
+    intro y s h
+    cases y with
+    | nil => exact ⟨s, by simpa using h, by omega, by omega, by omega⟩
+    | cons b y =>
+      simp only [List.mem_cons] at h
+      rcases h with rfl | h
+      · exact ⟨s.add b, by simp, by simp [GStat.add], by simp [GStat.add], by simp [GStat.add]⟩
+      · obtain ⟨t, ht, hle⟩ := ih y s h
+        exact ⟨t, by simp [ht], hle⟩
+
+theorem FitsRow.of_add_left (bits : Nat) (a b : Row) (h : FitsRow bits (a.add b)) :
+    FitsRow bits a := by
+  obtain ⟨h1, h2⟩ := h
+  refine ⟨by simp only [Row.add] at h1; omega, fun s hs => ?_⟩
+  obtain ⟨t, ht, l1, l2, l3⟩ := vadd_mem_left a.genes b.genes s hs
+  obtain ⟨a1, a2, a3⟩ := h2 t ht
+  omega
+
+theorem fits_of_bufZipAdd (bits : Nat) (a b : Buffer) (hlen : a.length = b.length)
+    (h : ∀ r ∈ bufZipAdd a b, FitsRow bits r) : ∀ r ∈ a, FitsRow bits r := by
+  intro r hr
+  obtain ⟨i, hi, rfl⟩ := List.getElem_of_mem hr
+  have hib : i < b.length := by omega
+  have : a[i].add b[i] ∈ bufZipAdd a b := by
+    have hz : (bufZipAdd a b)[i]? = some (a[i].add b[i]) :=
+      bufZipAdd_getElem? a b i _ _ (by simp [hi]) (by simp [hib])
+    exact List.mem_of_getElem? hz
+  exact FitsRow.of_add_left bits _ _ (h _ this)
+
+theorem bufZipAdd_length (a b : Buffer) : (bufZipAdd a b).length = min a.length b.length := by
+  simp [bufZipAdd]
+
+theorem fits_of_foldl (bits nC : Nat) : ∀ (bs : List Buffer) (acc : Buffer),
+    acc.length = nC → (∀ b ∈ bs, b.length = nC) →
+    (∀ r ∈ bs.foldl bufZipAdd acc, FitsRow bits r) → ∀ r ∈ acc, FitsRow bits r := by
+  intro bs
+  induction bs with
+  | nil => intro acc _ _ h; simpa using h
+  | cons b bs ih =>
+    intro acc hacc hbs h
+    have hb : b.length = nC := hbs b (by simp)
+    have := ih (bufZipAdd acc b) (by rw [bufZipAdd_length]; omega)
+      (fun b' hb' => hbs b' (by simp [hb'])) (by simpa using h)
+    exact fits_of_bufZipAdd bits acc b (by omega) this
+
+theorem foldl_wrap_eq (bits nC : Nat) : ∀ (bs : List Buffer) (acc : Buffer),
+    acc.length = nC → (∀ b ∈ bs, b.length = nC) →
+    (∀ r ∈ bs.foldl bufZipAdd acc, FitsRow bits r) →
+    bs.foldl (fun acc b => (bufZipAdd acc b).map (Row.wrap bits)) acc
+      = bs.foldl bufZipAdd acc := by
+  intro bs
+  induction bs with
+  | nil => intro _ _ _ _; rfl
+  | cons b bs ih =>
+    intro acc hacc hbs h
+    have hb : b.length = nC := hbs b (by simp)
+    have hlen : (bufZipAdd acc b).length = nC := by rw [bufZipAdd_length]; omega
+    have hbs' : ∀ b' ∈ bs, b'.length = nC := fun b' hb' => hbs b' (by simp [hb'])
+    have hfit := fits_of_foldl bits nC bs (bufZipAdd acc b) hlen hbs' (by simpa using h)
+    have hid : (bufZipAdd acc b).map (Row.wrap bits) = bufZipAdd acc b := by
+      conv => rhs; rw [← List.map_id (bufZipAdd acc b)]
+      apply List.map_congr_left
+      intro r hr
+      exact Row.wrap_of_fits bits r (hfit r hr)
+    simp only [List.foldl_cons, hid]
+    exact ih (bufZipAdd acc b) hlen hbs' (by simpa using h)
+
+/-! lengths are preserved by every successful step of a worker -/
+
+theorem bufAdd_length : ∀ (buf : Buffer) (u : Nat) (r : Row) (buf' : Buffer),
+    bufAdd buf u r = some buf' → buf'.length = buf.length := by
+  intro buf
+  induction buf with
+  | nil => intro u r buf' h; simp [bufAdd] at h
+  | cons b bs ih =>
+    intro u r buf' h
+    cases u with
+    | zero => simp only [bufAdd, Option.some.injEq] at h; subst h; rfl
+    | succ u =>
+      simp only [bufAdd, Option.map_eq_some_iff] at h
+      obtain ⟨bs', h1, rfl⟩ := h
+      simp [ih u r bs' h1]
+
+theorem processUnique_length (ntr : List (Nat × Nat)) (cells : List CellRec) :
+    ∀ (us : List Nat) (buf buf' : Buffer), processUnique ntr cells buf us = .ok buf' →
+      buf'.length = buf.length := by
+  intro us
+  induction us with
+  | nil => intro buf buf' h; simp only [processUnique, Except.ok.injEq] at h; rw [h]
+  | cons u us ih =>
+    intro buf buf' h
+    simp only [processUnique] at h
+    split at h
+    · simp at h
+    · rename_i b1 hb1
+      rw [ih b1 buf' h, bufAdd_length _ _ _ _ hb1]
+
+theorem processChunks_length (ntr : List (Nat × Nat)) :
+    ∀ (chunks : List Chunk) (buf buf' : Buffer), processChunks ntr buf chunks = .ok buf' →
+      buf'.length = buf.length := by
+  intro chunks
+  induction chunks with
+  | nil => intro buf buf' h; simp only [processChunks, Except.ok.injEq] at h; rw [h]
+  | cons c chunks ih =>
+    intro buf buf' h
+    simp only [processChunks] at h
+    split at h
+    · simp at h
+    · rename_i b1 hb1
+      rw [ih b1 buf' h]
+      exact processUnique_length ntr _ _ _ _ hb1
+
+theorem processSpec_length (nC g : Nat) (ntr : List (Nat × Nat)) (load : List Chunk)
+    (buf : Buffer) (h : processSpec nC g ntr load = .ok buf) : buf.length = nC := by
+  have := processChunks_length ntr load _ _ h
+  simpa [zeroBuffer] using this
+
+theorem mapMExcept_mem {α β ε : Type} (f : α → Except ε β) : ∀ (as : List α) (bs : List β),
+    mapMExcept f as = .ok bs → ∀ b ∈ bs, ∃ a ∈ as, f a = .ok b := by
+  intro as
+  induction as with
+  | nil => intro bs h b hb; simp only [mapMExcept, Except.ok.injEq] at h; subst h; simp at hb
+  | cons a as ih =>
+    intro bs h b hb
+    simp only [mapMExcept] at h
+    split at h
+    · simp at h
+    · rename_i b0 hb0
+      split at h
+      · simp at h
+      · rename_i bs0 hbs0
+        simp only [Except.ok.injEq] at h
+        subst h
+        simp only [List.mem_cons] at hb
+        rcases hb with rfl | hb
+        · exact ⟨a, by simp, hb0⟩
+        · obtain ⟨a', ha', hfa'⟩ := ih bs0 hbs0 b hb
+          exact ⟨a', by simp [ha'], hfa'⟩
+
+theorem precomputeW_eq (bits nC g : Nat) (ntr : List (Nat × Nat))
+    (files : List (Nat × List CellRec)) (rows nProc : Nat) (buf : Buffer)
+    (h : precompute nC g ntr files rows nProc = .ok buf) (hfit : fitsBits bits buf = true) :
+    precomputeW bits nC g ntr files rows nProc = .ok buf := by
+  simp only [precompute] at h
+  simp only [precomputeW]
+  split at h
+  · simp at h
+  · rename_i loads hloads
+    split at h
+    · simp at h
+    · rename_i bufs hbufs
+      have hlen : ∀ b ∈ bufs, b.length = nC := by
+        intro b hb
+        obtain ⟨l, _, hl⟩ := mapMExcept_mem _ _ _ hbufs b hb
+        exact processSpec_length nC g ntr l b hl
+      cases bufs with
+      | nil => simp [mergeBuffers] at h
+      | cons b bs =>
+        simp only [mergeBuffers, Except.ok.injEq] at h
+        simp only [mergeBuffersW]
+        rw [foldl_wrap_eq bits nC (b :: bs) (zeroBuffer nC g) (by simp [zeroBuffer]) hlen
+          (by rw [h]; exact (fitsBits_iff bits buf).mp hfit), h]
+
+/-- all three counts of an entry are at most `k` -/
+def CountsLe (k : Nat) (s : GStat) : Prop := s.gt0 ≤ k ∧ s.gt1 ≤ k ∧ s.ge1 ≤ k
+
+theorem vadd_countsLe (k1 k2 : Nat) : ∀ (x y : List GStat),
+    (∀ a ∈ x, CountsLe k1 a) → (∀ b ∈ y, CountsLe k2 b) →
+      ∀ t ∈ vadd x y, CountsLe (k1 + k2) t := by
+  intro x
+  induction x with
+  | nil =>
+    intro y _ hy t ht
+    obtain ⟨a, b, c⟩ := hy t (by simpa using ht)
+    exact ⟨by omega, by omega, by omega⟩
+  | cons a x ih =>
+    intro y hx hy t ht
+    cases y with
+    | nil =>
+      obtain ⟨a1, b1, c1⟩ := hx t (by simpa using ht)
+      exact ⟨by omega, by omega, by omega⟩
+    | cons b y =>
+      simp only [vadd_cons, List.mem_cons] at ht
+      rcases ht with rfl | ht
+      · obtain ⟨a1, a2, a3⟩ := hx a (by simp)
+        obtain ⟨b1, b2, b3⟩ := hy b (by simp)
+        simp only [CountsLe, GStat.add]
+        omega
+      · exact ih y (fun a' ha' => hx a' (by simp [ha'])) (fun b' hb' => hy b' (by simp [hb'])) t ht
+
+theorem geneStat_countsLe (v : Rat) : CountsLe 1 (geneStat v) := by
+  simp only [CountsLe, geneStat, above]
+  refine ⟨?_, ?_, ?_⟩ <;> (repeat' split) <;> omega
+
+theorem rowSum_cellStat_countsLe : ∀ (L : List CellRec),
+    ∀ s ∈ (rowSum (L.map (fun cell => cellStat cell.vals))).genes, CountsLe L.length s := by
+  intro L
+  induction L with
+  | nil => intro s hs; simp [Row.empty] at hs
+  | cons c L ih =>
+    intro s hs
+    simp only [List.map_cons, rowSum_cons, Row.add, cellStat] at hs
+    have := vadd_countsLe 1 L.length _ _ (by
+      intro a ha
+      simp only [List.mem_map] at ha
+      obtain ⟨v, _, rfl⟩ := ha
+      exact geneStat_countsLe v) ih s hs
+    simpa [Nat.add_comm] using this
+
+theorem precompute_fits (bits nC g : Nat) (ntr : List (Nat × Nat))
+    (files : List (Nat × List CellRec)) (rows nProc : Nat)
+    (hrows : 1 ≤ rows) (hproc : 1 ≤ nProc) (hntr : ∀ p ∈ ntr, p.2 < nC)
+    (hw : ∃ f ∈ files, wanted ntr f.2 = true)
+    (hfew : (files.flatMap (·.2)).length < 2 ^ bits) :
+    ∃ buf, precompute nC g ntr files rows nProc = .ok buf ∧ fitsBits bits buf = true := by
+  obtain ⟨buf, e, hl, r⟩ := precompute_spec nC g ntr files rows nProc hrows hproc hntr hw
+  refine ⟨buf, e, (fitsBits_iff bits buf).mpr fun row hrow => ?_⟩
+  obtain ⟨c, hc, rfl⟩ := List.getElem_of_mem hrow
+  have hrc := r c (by omega)
+  rw [List.getElem?_eq_getElem hc] at hrc
+  simp only [Option.some.injEq] at hrc
+  rw [hrc]
+  have hmem : (cellsOfRow ntr c (files.flatMap (·.2))).length ≤ (files.flatMap (·.2)).length :=
+    List.length_filter_le _ _
+  refine ⟨?_, fun s hs => ?_⟩
+  · simp only [Row.add, Row.zero, S, rowSum_cellStat_n]
+    omega
+  · simp only [Row.add, Row.zero, S] at hs
+    have := vadd_countsLe 0 _ _ _ (by
+      intro a ha
+      simp only [List.mem_replicate] at ha
+      rw [ha.2]; exact ⟨by simp [GStat.zero], by simp [GStat.zero], by simp [GStat.zero]⟩)
+      (rowSum_cellStat_countsLe (cellsOfRow ntr c (files.flatMap (·.2)))) s hs
+    obtain ⟨a1, a2, a3⟩ := this
+    exact ⟨by omega, by omega, by omega⟩
+
 end CTM.Stats
